@@ -2,3 +2,6 @@
 #include "utils.c"
 void h_scpiheap_init(void) { scpi_error_info_heap_t *h; char *d; size_t n; scpiheap_init(h, d, n); REACH("scpiheap_init"); }
 void h_scpiheap_strndup(void) { scpi_error_info_heap_t *h; const char *s; size_t n; char *r = scpiheap_strndup(h, s, n); if (r) REACH("scpiheap_strndup:stored"); else REACH("scpiheap_strndup:refused"); }
+void h_scpiheap_get_parts(void) { scpi_error_info_heap_t *h; const char *s; size_t *l1, *l2; const char **s2; scpi_bool_t r = scpiheap_get_parts(h, s, l1, s2, l2);
+    if (r) REACH("scpiheap_get_parts:some"); else REACH("scpiheap_get_parts:none"); }
+void h_scpiheap_free(void) { scpi_error_info_heap_t *h; char *s; scpi_bool_t rb = nondet_bool(); scpiheap_free(h, s, rb); REACH("scpiheap_free"); }
